@@ -32,7 +32,7 @@ def parents_map(node):
 
 
 # ---------------------------------------------------------------------------------------------
-def setcols_complete(ctx, py, rule="PY-SETCOLS"):
+def setcols_complete(ctx, py, rule="PY-SETCOLS", only_tables=False):
     ctx.rule(rule, "a TableCollection method that rebuilds one of its own tables with self.<table>.set_columns(...) passes every "
                    "column in that table's column_names (set_columns replaces the table: an omitted column is data dropped); "
                    "table methods that rewrite themselves pass **self.asdict()-derived dicts")
@@ -50,7 +50,7 @@ def setcols_complete(ctx, py, rule="PY-SETCOLS"):
             if recv is None:
                 continue
             parts = recv.split(".")
-            if cls == "TableCollection" and len(parts) == 2 and parts[0] == "self" and parts[1] in TABLE_ATTR:
+            if cls == "TableCollection" and len(parts) == 2 and parts[0] == "self" and parts[1] in TABLE_ATTR and not only_tables:
                 want = cols[TABLE_ATTR[parts[1]]]
                 have = {k.arg for k in c.keywords if k.arg}
                 star = any(k.arg is None for k in c.keywords)
@@ -76,13 +76,15 @@ def setcols_complete(ctx, py, rule="PY-SETCOLS"):
     return n
 
 
-def kw_forward(ctx, py, mods=("trees", "tables", "vcf", "genotypes", "stats", "text_formats"), rule="PY-KWFORWARD"):
+def kw_forward(ctx, py, mods=("trees", "tables", "vcf", "genotypes", "stats", "text_formats"), rule="PY-KWFORWARD", only=None):
     ctx.rule(rule, "when a function forwards one of its own parameters as keyword K=<param>, and K is itself the name of "
                    "another of its parameters, the two names must be equal (K=otherparam is a crossed option)")
     n = 0
     for mn in mods:
         m = py.mod(mn)
         for qn, fn in m.funcs.items():
+            if only is not None and not only(mn, qn):
+                continue
             names, kwonly, _ = params_of(fn)
             ps = set(names) | set(kwonly)
             for c in ast.walk(fn):
@@ -104,13 +106,15 @@ KWFORWARD_OK = set()
 
 
 def unused_params(ctx, py, mods=("trees", "tables", "vcf", "genotypes", "stats", "text_formats", "util", "metadata", "intervals"),
-                  rule="PY-PARAM-USED"):
+                  rule="PY-PARAM-USED", only=None):
     ctx.rule(rule, "every parameter of a function in the facade is read in its body (a parameter that is never read is an "
                    "option silently ignored); stubs and frozen exceptions excluded")
     n = 0
     for mn in mods:
         m = py.mod(mn)
         for qn, fn in m.funcs.items():
+            if only is not None and not only(mn, qn):
+                continue
             body = [s for s in fn.body if not (isinstance(s, ast.Expr) and isinstance(s.value, ast.Constant))]
             if not body or all(isinstance(s, (ast.Pass, ast.Raise)) for s in body):
                 continue
@@ -595,7 +599,7 @@ LL_RECEIVERS = {"_ll_tables": "TableCollection", "_ll_tree_sequence": "TreeSeque
                 "_ll_variant": "Variant", "_ll_ld_calculator": "LdCalculator"}
 
 
-def ll_positional(ctx, py, P, rule="PY-LL-POSITIONAL"):
+def ll_positional(ctx, py, P, rule="PY-LL-POSITIONAL", only=None):
     ctx.rule(rule, "positional calls from the Python facade into _tskit pass, in slot i, the variable named like keyword i of the C "
                    "method's kwlist (e.g. ll_table.add_row(flags, time, population, individual, metadata)); a swapped or shifted "
                    "argument is a silently mis-assigned column/option")
@@ -616,6 +620,8 @@ def ll_positional(ctx, py, P, rule="PY-LL-POSITIONAL"):
     for mn in ("tables", "trees", "genotypes", "stats"):
         m = py.mod(mn)
         for qn, fn in m.funcs.items():
+            if only is not None and not only(mn, qn):
+                continue
             pycls = qn.split(".")[0]
             for c in ast.walk(fn):
                 if not (isinstance(c, ast.Call) and isinstance(c.func, ast.Attribute)):
